@@ -1,6 +1,6 @@
 ------------------------------ MODULE FloodSubMon ------------------------------
 (* Observer for traces of real floodsub meshes (drivers/floodsub -mode mesh): C27 C28 C29.
-   Lines: reset(topo, nodes) / init(subs) / toggle / freeze / publish(n, data) / inject / q(sent, reads, got, subs).
+   Lines: reset(topo, nodes) / init(subs) / toggle / linkup(a, b) / freeze / publish(n, data) / inject / q(sent, reads, got, subs).
    The predicates are those of FloodSub.tla evaluated on what was observed: handler invocations per node, every frame
    written on every link (wire tap), every publish frame read by every node (with a global sequence number). *)
 EXTENDS Naturals, Integers, Sequences, FiniteSets, TLC, Json, IOUtils
@@ -17,6 +17,7 @@ Reset == /\ Is("reset") /\ l' = l + 1 /\ bi' = Ev.b /\ nodes' = SeqSet(Ev.nodes)
          /\ pubs' = {} /\ lastAnn' = {} /\ allSent' = <<>> /\ allReads' = <<>> /\ frozen' = FALSE /\ UNCHANGED bad
 Skip == /\ (Is("init") \/ Is("toggle") \/ Is("inject")) /\ l' = l + 1
         /\ UNCHANGED <<bi, nodes, topo, pubs, lastAnn, allSent, allReads, frozen, bad>>
+LinkUp == Is("linkup") /\ l' = l + 1 /\ topo' = topo \cup {{Ev.a, Ev.b}} /\ UNCHANGED <<bi, nodes, pubs, lastAnn, allSent, allReads, frozen, bad>>
 Freeze == Is("freeze") /\ l' = l + 1 /\ frozen' = TRUE /\ UNCHANGED <<bi, nodes, topo, pubs, lastAnn, allSent, allReads, bad>>
 Publish == Is("publish") /\ l' = l + 1 /\ pubs' = pubs \cup {<<Ev.n, Ev.data>>} /\ UNCHANGED <<bi, nodes, topo, lastAnn, allSent, allReads, frozen, bad>>
 \* last subscription announcement per directed link, folded over the new frames
@@ -56,7 +57,7 @@ Q ==
      IN /\ allSent' = sent /\ allReads' = reads /\ lastAnn' = la
         /\ bad' = bad \cup b27 \cup b28 \cup b29
   /\ UNCHANGED <<bi, nodes, topo, pubs, frozen>>
-Next == Reset \/ Skip \/ Freeze \/ Publish \/ Q
+Next == Reset \/ Skip \/ LinkUp \/ Freeze \/ Publish \/ Q
 Spec == Init /\ [][Next]_vars
 NoViolation == \A b \in bad : b[1] # Prop
 Consumed == TLCGet("stats").diameter - 1 = Len(Trace)
